@@ -384,7 +384,7 @@ RS_PATTERNS = {
     Q: ["ab.", "a(b)(.)", "B", "a\\\\b", None],
     T: ["b", "[a-c]+", "ab?d", "(a|x)(b)", "a\\.b", "\\d+", "(ab)+", "^a", "e$"],
 }
-RS_OCC = {Q: [1, 2], T: [3]}
+RS_OCC = {Q: [1, 3], T: [2]}
 RS_PARAMS = {Q: ["c", "i", "e", "ie"], T: ["ci"]}
 RS_GROUPS = [1, 2]
 
@@ -479,6 +479,7 @@ def gen_regexp_replace(tier, out, stats):
 
 
 # ---- SPLIT ----------------------------------------------------------------------------------------------------------
+# Not demanded: SPLIT('' , sep) (the page does not say whether the result is [""] or []); the type code of the ARRAY.
 SP_STRINGS = {Q: ["a,b,c", "a,b,,c", None], T: [",a,", "abc", "a.b", "a||b||c", "a b"]}
 SP_SEPS = {Q: [",", "", None], T: [".", "||", "bc", " "]}
 
@@ -492,6 +493,7 @@ def gen_split(tier, out, stats):
 
 
 # ---- TRIM / LTRIM / RTRIM -------------------------------------------------------------------------------------------
+# Not demanded: an empty or NULL <characters> argument, whitespace other than the blank, non-integer numbers as input.
 TR_SUBJECTS = {Q: ["  a  ", "xxaxx", None], T: ["xyaxy", " a b ", "abc", "", " xax "]}
 TR_CHARS = {Q: [None, "x"], T: ["xy", " ", "a", " x"]}  # None = argument omitted
 TR_FUNCS = {"TRIM": sf.trim, "LTRIM": sf.ltrim, "RTRIM": sf.rtrim}
@@ -520,6 +522,8 @@ def gen_trim(tier, out, stats):
 
 
 # ---- TO_DATE --------------------------------------------------------------------------------------------------------
+# Not demanded: AUTO formats other than ISO and explicit formats (fakesnow hands those to DuckDB as they are; the right
+# value or a rejection is accepted), '' as input, TRY_TO_DATE (not named by the property).
 TD_STRINGS = {
     Q: ["2024-02-29", "1970-01-01", "2024-02-29 12:13:14", "2024-02-30", "abc"],
     T: ["1969-12-31", "2023-12-31", "9999-12-31", "2024-02-29T23:59:59", "2024-02-29 23:59:59.999", "2023-02-29", "2024-13-01"],
@@ -550,6 +554,9 @@ def gen_to_date(tier, out, stats):
 
 
 # ---- TO_TIMESTAMP / TO_TIMESTAMP_NTZ --------------------------------------------------------------------------------
+# Integers of millisecond / microsecond / nanosecond magnitude without a scale: fakesnow does not implement the documented
+# magnitude rule, so these are rej_ok (right value or rejected, an OverflowError while fetching counts as rejected).
+# Not demanded: sub-microsecond digits, zoned strings, FLOAT arguments.
 TT_STRINGS = {
     Q: ["2024-02-29", "2024-02-29 12:13:14", "2024-02-29T12:13:14.123456", "1700000000"],
     T: ["1969-12-31 23:59:59", "2024-02-29 12:13:14.5", "0", "2024-02-30 00:00:00", "abc"],
@@ -595,6 +602,8 @@ def gen_to_timestamp(tier, out, stats):
 
 
 # ---- TO_DECIMAL / TO_NUMBER / TO_NUMERIC and TRY_ forms -------------------------------------------------------------
+# Not demanded: padded / blank strings, '+1', '.5', thousands separators, FLOAT input exactly at a binary-exact midpoint,
+# TRY_ forms with non-string input (the TRY_ pages ask for a string expression).
 DEC_NAMES = ["TO_DECIMAL", "TO_NUMBER", "TO_NUMERIC"]
 DEC_STRINGS = {
     Q: ["1.5", "-2.5", "12.345", "12.3449", "99999.5", "123456", "abc"],
@@ -723,6 +732,10 @@ def gen_casts(tier, out, stats):
 
 
 # ---- DATEADD --------------------------------------------------------------------------------------------------------
+# Result type rule (DATEADD page): DATE + part of day or larger -> DATE; DATE + smaller part -> TIMESTAMP_NTZ; timestamp ->
+# timestamp.  String literals are implicitly cast to TIMESTAMP; for a date-only string with a part of day or larger a DATE
+# is accepted as well (kind date_or_ts).  nanosecond is rej_ok (no sub-microsecond arithmetic in DuckDB intervals).
+# Not demanded: fractional amounts, TIME inputs.
 PARTS = ["year", "quarter", "month", "week", "day", "hour", "minute", "second", "millisecond", "microsecond", "nanosecond"]
 PART_ALIASES = ["yy", "qtr", "mon", "wk", "dd", "hh", "mi", "sec", "ms", "us", "ns", "'month'", "YEARS"]  # thorough only
 DA_AMOUNTS = {Q: [-13, -1, 0, 1, 3, 13], T: [n for n in range(-13, 14) if n not in (-13, -1, 0, 1, 3, 13)]}
